@@ -161,10 +161,16 @@ def configs(tier):
         for adi in (False, True):
             out.append((duct_unrodded, dict(model=model, adiabatic=adi)))
     out.append((duct_unrodded, dict(model='simple', adiabatic=False, hgap_per_cell=True)))
+    # temperature-dependent wall conductivity (an uninterpreted positive function of temperature): every constant of
+    # the wall solve must use the conductivity at THIS duct's present mean temperature, not a value left behind by the
+    # previous duct or the previous step
+    out.append((duct_rodded, dict(n_duct=2, adiabatic=False, heated=True, tdep=True)))
+    out.append((duct_rodded, dict(n_duct=1, adiabatic=True, heated=True, tdep=True)))
+    out.append((duct_unrodded, dict(model='6node', adiabatic=False, tdep=True)))
     if tier == 'thorough':
-        out.append((duct_rodded, dict(n_duct=2, adiabatic=False, heated=True, tdep=True)))
+        out.append((duct_rodded, dict(n_duct=3, adiabatic=False, heated=True, tdep=True)))
         out.append((duct_rodded, dict(n_duct=1, adiabatic=False, heated=True, n_ring=3)))
         out.append((duct_rodded, dict(n_duct=3, adiabatic=False, heated=False)))
         out.append((duct_rodded, dict(n_duct=3, adiabatic=True, heated=True, n_ring=4)))
-        out.append((duct_unrodded, dict(model='6node', adiabatic=False, tdep=True)))
+        out.append((duct_unrodded, dict(model='simple', adiabatic=True, tdep=True)))
     return out
